@@ -114,7 +114,23 @@ pub fn run_with_stdin(bin: &Path, args: &[String], input: Option<&[u8]>) -> Opti
             let _ = si.write_all(bytes);
         }
     }
-    // outputs here are a few lines: far below the pipe capacity, so waiting first is safe
+    // both output streams are drained while waiting (an answer with thousands of arguments exceeds the pipe capacity)
+    let mut o = child.stdout.take();
+    let mut e = child.stderr.take();
+    let ho = std::thread::spawn(move || {
+        let mut b = Vec::new();
+        if let Some(o) = o.as_mut() {
+            let _ = o.read_to_end(&mut b);
+        }
+        b
+    });
+    let he = std::thread::spawn(move || {
+        let mut b = Vec::new();
+        if let Some(e) = e.as_mut() {
+            let _ = e.read_to_end(&mut b);
+        }
+        b
+    });
     let t0 = std::time::Instant::now();
     let status = loop {
         match child.try_wait() {
@@ -131,18 +147,8 @@ pub fn run_with_stdin(bin: &Path, args: &[String], input: Option<&[u8]>) -> Opti
             Err(_) => return None,
         }
     };
-    let mut so = String::new();
-    let mut se = String::new();
-    if let Some(mut o) = child.stdout.take() {
-        let mut b = Vec::new();
-        let _ = o.read_to_end(&mut b);
-        so = String::from_utf8_lossy(&b).to_string();
-    }
-    if let Some(mut e) = child.stderr.take() {
-        let mut b = Vec::new();
-        let _ = e.read_to_end(&mut b);
-        se = String::from_utf8_lossy(&b).to_string();
-    }
+    let so = String::from_utf8_lossy(&ho.join().unwrap_or_default()).to_string();
+    let se = String::from_utf8_lossy(&he.join().unwrap_or_default()).to_string();
     Some(RunOut { code: status.code(), stdout: so, stderr: se })
 }
 
@@ -348,13 +354,45 @@ fn success_runs(ctx: &mut Ctx, rng: &mut Rng, dir: &Path) {
     if fname != "inst.apx" && fname != "inst.af" {
         ctx.count("success_runs/unusual-file-name");
     }
-    let file = match write_file(dir, &fname, &inst.bytes) {
+    let mut file = match write_file(dir, &fname, &inst.bytes) {
         Some(f) => f,
         None => {
             ctx.harness_error("cannot write instance");
             return;
         }
     };
+    // paths a user types: through `.`, through `sub/..`, and through a symbolic link to a directory followed
+    // by `..` (which the operating system resolves from the link's *target*: work/link/../x is real/x, not
+    // work/x -- where a different, decoy instance sits half of the time)
+    match rng.below(16) {
+        0 => {
+            file = dir.join(".").join(&fname);
+            ctx.count("success_runs/path-with-dot-component");
+        }
+        1 => {
+            let _ = std::fs::create_dir_all(dir.join("sub"));
+            file = dir.join("sub").join("..").join(&fname);
+            ctx.count("success_runs/path-with-dot-dot-component");
+        }
+        2 | 3 => {
+            let real = dir.join("real");
+            let work = dir.join("work");
+            let _ = std::fs::create_dir_all(real.join("deep"));
+            let _ = std::fs::create_dir_all(&work);
+            let link = work.join("link");
+            let _ = std::fs::remove_file(&link);
+            let decoy = work.join("inst-l.af");
+            let _ = std::fs::remove_file(&decoy);
+            if std::os::unix::fs::symlink("../real/deep", &link).is_ok() && std::fs::write(real.join("inst-l.af"), &inst.bytes).is_ok() {
+                if rng.pct(50) {
+                    let _ = std::fs::write(&decoy, if inst.apx { &b"arg(decoy_zz).\n"[..] } else { &b"p af 1\n"[..] });
+                }
+                file = link.join("..").join("inst-l.af");
+                ctx.count("success_runs/path-through-symlinked-directory-then-dot-dot");
+            }
+        }
+        _ => {}
+    }
     let n = inst.abs.n;
     let problems = all_problems();
     let crustabri = ctx.repo_bin_dir.join("crustabri");
@@ -404,6 +442,18 @@ fn success_runs(ctx: &mut Ctx, rng: &mut Rng, dir: &Path) {
             }
             if cert {
                 args.push(if rng.pct(50) { "-c" } else { "--with-certificate" }.into());
+            }
+            // one run in five delegates the SAT calls to an external solver (the monitor solver or kissat):
+            // the answer lines are the same whichever backend computes them
+            if rng.pct(20) {
+                args.push("--external-sat-solver".into());
+                if rng.pct(50) {
+                    args.push(ctx.bin_dir.join("msat").to_string_lossy().to_string());
+                } else {
+                    args.push("kissat".into());
+                    args.push("--external-sat-solver-opt=-q".into());
+                }
+                ctx.count("success_runs/external-sat-solver");
             }
             if level != "default" {
                 // both spellings of an option with a value: two words, or one word with '='
@@ -767,8 +817,52 @@ fn problems_runs(ctx: &mut Ctx, rng: &mut Rng, dir: &Path) {
                 }
             }
         }
-        // unlisted strings are rejected
-        for bad in ["SE-SS", "DD-CO", "DC-", "SE-STGG", "EE-ID", "DS-IDD", "SE-GRD", "CO-SE"] {
+        // unlisted strings are rejected; among them strings that only *look* like a listed problem, or become
+        // one under a Unicode case mapping or compatibility normalisation (ſ -> S, ı -> I, ß -> SS, ﬆ -> ST,
+        // full-width letters, other dashes)
+        let mut bads: Vec<String> = ["SE-SS", "DD-CO", "DC-", "SE-STGG", "EE-ID", "DS-IDD", "SE-GRD", "CO-SE"].iter().map(|x| x.to_string()).collect();
+        let mut lookalikes: Vec<String> = Vec::new();
+        for p in listed.iter() {
+            for pl in [p.clone(), p.to_lowercase()] {
+                let chars: Vec<char> = pl.chars().collect();
+                for (k, c) in chars.iter().enumerate() {
+                    let subs: &[&str] = match c {
+                        'S' | 's' => &["\u{17f}", "\u{ff33}", "\u{ff53}"],
+                        'I' | 'i' => &["\u{131}", "\u{130}", "\u{ff29}"],
+                        'D' => &["\u{ff24}"],
+                        'C' => &["\u{ff23}", "\u{421}"],
+                        'O' => &["\u{ff2f}", "\u{41e}"],
+                        'P' => &["\u{ff30}", "\u{420}"],
+                        'E' => &["\u{ff25}", "\u{415}"],
+                        'T' | 't' => &["\u{ff34}"],
+                        'G' | 'R' | 'g' | 'r' => &[],
+                        '-' => &["\u{2010}", "\u{2013}", "\u{ff0d}", "_"],
+                        _ => &[],
+                    };
+                    for sub in subs {
+                        let mut v: String = chars[..k].iter().collect();
+                        v.push_str(sub);
+                        v.extend(chars[k + 1..].iter());
+                        lookalikes.push(v);
+                    }
+                }
+                for (pair, subs) in [("ST", vec!["\u{fb06}", "\u{fb05}"]), ("st", vec!["\u{fb06}", "\u{fb05}"]), ("SS", vec!["\u{df}", "\u{1e9e}"]), ("ss", vec!["\u{df}"])] {
+                    if let Some(pos) = pl.find(pair) {
+                        for sub in subs {
+                            lookalikes.push(format!("{}{}{}", &pl[..pos], sub, &pl[pos + 2..]));
+                        }
+                    }
+                }
+            }
+        }
+        for _ in 0..14 {
+            if !lookalikes.is_empty() {
+                bads.push(lookalikes[rng.below(lookalikes.len())].clone());
+                ctx.count("error_runs/problem-strings-that-only-look-like-a-listed-one");
+            }
+        }
+        for bad in bads.iter() {
+            let bad = bad.as_str();
             let mut a: Vec<String> = if bin_name == "crustabri" {
                 vec!["solve".into(), "-f".into(), tiny.clone(), "-p".into(), bad.into(), "--logging-level".into(), "off".into()]
             } else {
@@ -779,6 +873,88 @@ fn problems_runs(ctx: &mut Ctx, rng: &mut Rng, dir: &Path) {
             if let Some(o) = run(bin, &a) {
                 judge_error(ctx, bin_name, "unlisted-problem", &a, None, &o);
             }
+        }
+    }
+}
+
+/// Answers with thousands of arguments on the witness line (a line of 16-70 KiB): N arguments, all isolated
+/// but a chain 1 -> 2 -> 3 -> 4, so that every semantics has the single extension {1..N} \ {2, 4}.
+fn big_witness_runs(ctx: &mut Ctx, rng: &mut Rng, dir: &Path) {
+    let n = *rng.pick(&[3_000usize, 3_499, 3_500, 4_096, 6_000, 9_000, 13_000]) + rng.below(3);
+    let apx = rng.pct(35);
+    let name = |k: usize| if apx { format!("a{}", k) } else { k.to_string() };
+    let mut text = String::new();
+    if apx {
+        for k in 1..=n {
+            text.push_str(&format!("arg({}).\n", name(k)));
+        }
+        for k in 1..4 {
+            text.push_str(&format!("att({},{}).\n", name(k), name(k + 1)));
+        }
+    } else {
+        text = format!("p af {}\n1 2\n2 3\n3 4\n", n);
+    }
+    let file = match write_file(dir, if apx { "wide.apx" } else { "wide.af" }, text.as_bytes()) {
+        Some(f) => f.to_string_lossy().to_string(),
+        None => return,
+    };
+    let mut expected: Vec<String> = (1..=n).filter(|k| *k != 2 && *k != 4).map(name).collect();
+    expected.sort();
+    let crustabri = ctx.repo_bin_dir.join("crustabri");
+    let wrapper = ctx.repo_bin_dir.join("crustabri_iccma23");
+    let probs = ["SE-GR", "SE-CO", "SE-ST", "SE-PR", "DC-CO", "DS-ST", "SE-ID"];
+    let p = *rng.pick(&probs);
+    let mut runs: Vec<(&str, &std::path::PathBuf, Vec<String>)> = Vec::new();
+    let mut a: Vec<String> = vec!["solve".into(), "-f".into(), file.clone(), "-p".into(), p.into(), "--logging-level".into(), "off".into()];
+    if apx {
+        a.extend(["-r".to_string(), "apx".to_string()]);
+    }
+    if !p.starts_with("SE") {
+        // DC on an accepted argument gives YES + witness; DS on a rejected one gives NO + counter-witness
+        a.extend(["-a".to_string(), if p.starts_with("DC") { name(3) } else { name(2) }, "-c".to_string()]);
+    }
+    runs.push(("crustabri", &crustabri, a));
+    if !apx {
+        let mut w: Vec<String> = vec!["-f".into(), file.clone(), "-p".into(), p.into()];
+        if !p.starts_with("SE") {
+            w.extend(["-a".to_string(), if p.starts_with("DC") { name(3) } else { name(2) }]);
+        }
+        runs.push(("crustabri_iccma23", &wrapper, w));
+    }
+    for (bin_name, bin, args) in runs {
+        let out = match run(bin, &args) {
+            Some(o) => o,
+            None => return,
+        };
+        ctx.eval();
+        ctx.count("success_runs/witness-line-of-thousands-of-arguments");
+        let lines: Vec<&str> = out.stdout.lines().collect();
+        let (status_ok, wline) = if p.starts_with("SE") {
+            (lines.len() == 1, lines.first().copied())
+        } else {
+            (lines.len() == 2 && lines[0] == if p.starts_with("DC") { "YES" } else { "NO" }, lines.get(1).copied())
+        };
+        let mut got = wline.and_then(|l| parse_witness(apx, l));
+        if let Some(g) = got.as_mut() {
+            g.sort();
+        }
+        if out.code != Some(0) || !status_ok || got.as_ref() != Some(&expected) {
+            let why = match &got {
+                None => "witness line does not parse".to_string(),
+                Some(g) if *g != expected => {
+                    let odd: Vec<&String> = g.iter().filter(|x| expected.binary_search(x).is_err()).take(4).collect();
+                    format!("{} arguments printed, {} expected; printed but not in the extension: {:?}", g.len(), expected.len(), odd)
+                }
+                _ => "status lines / exit status".to_string(),
+            };
+            ctx.violation(
+                &format!("C05/wrong-answer/{}/wide-witness/{}", bin_name, p),
+                json!({"arguments": n, "format": if apx { "apx" } else { "iccma23" }, "exit_status": out.code, "why": why,
+                       "stdout_head": out.stdout.chars().take(120).collect::<String>(), "stdout_bytes": out.stdout.len()}),
+                &json!({"kind": "wide-witness", "bin": bin_name, "args": args, "instance_text_head": text.chars().take(60).collect::<String>(), "n": n, "apx": apx}),
+            );
+        } else {
+            ctx.nontrivial((n as u64) << 8 | (apx as u64) << 4 | probs.iter().position(|x| *x == p).unwrap() as u64);
         }
     }
 }
@@ -796,6 +972,9 @@ pub fn run_c05(ctx: &mut Ctx) {
         }
         ctx.case_begin(&json!({"i": i}));
         let mut rng = Rng::from_path(&[ctx.seed, 5, i]);
+        if i % 8 == 5 {
+            big_witness_runs(ctx, &mut rng, &dir);
+        }
         match rng.weighted(&[6, 4, 1]) {
             0 => success_runs(ctx, &mut rng, &dir),
             1 => error_runs(ctx, &mut rng, &dir),
@@ -815,6 +994,36 @@ pub fn run_c05(ctx: &mut Ctx) {
 }
 
 pub fn replay_c05(ctx: &mut Ctx, case: &Value) -> Result<(), String> {
+    if case.get("kind").and_then(|k| k.as_str()) == Some("wide-witness") {
+        // the instance is a function of (n, format): N arguments, attacks 1 -> 2 -> 3 -> 4
+        let n = case.get("n").and_then(|x| x.as_u64()).ok_or("no n")? as usize;
+        let apx = case.get("apx").and_then(|x| x.as_bool()).unwrap_or(false);
+        let mut text = String::new();
+        if apx {
+            for k in 1..=n {
+                text.push_str(&format!("arg(a{}).\n", k));
+            }
+            for k in 1..4 {
+                text.push_str(&format!("att(a{},a{}).\n", k, k + 1));
+            }
+        } else {
+            text = format!("p af {}\n1 2\n2 3\n3 4\n", n);
+        }
+        let dir = ctx.out_dir.join("c05-replay");
+        let _ = std::fs::create_dir_all(&dir);
+        let f = dir.join(if apx { "wide.apx" } else { "wide.af" });
+        std::fs::write(&f, text).map_err(|e| e.to_string())?;
+        let mut args: Vec<String> = case.get("args").and_then(|a| a.as_array()).ok_or("no args")?.iter().filter_map(|x| x.as_str().map(|s| s.to_string())).collect();
+        if let Some(pos) = args.iter().position(|a| a == "-f") {
+            args[pos + 1] = f.to_string_lossy().to_string();
+        }
+        let bin_name = case.get("bin").and_then(|b| b.as_str()).ok_or("no bin")?;
+        let out = run(&ctx.repo_bin_dir.join(bin_name), &args).ok_or("cannot run binary")?;
+        let expected = (1..=n).filter(|k| *k != 2 && *k != 4).count();
+        println!("REPLAY exit_status={:?}\nREPLAY stdout_bytes={} words_on_last_line={} (extension has {} arguments)\nREPLAY stdout_head={:?}",
+            out.code, out.stdout.len(), out.stdout.lines().last().map(|l| l.split([' ', ',']).count()).unwrap_or(0), expected, out.stdout.chars().take(160).collect::<String>());
+        return Ok(());
+    }
     // re-execute the recorded invocation (the instance file is re-created from the recorded bytes)
     let bin_name = case.get("binary").and_then(|b| b.as_str()).ok_or("no binary")?;
     let mut args: Vec<String> = case.get("args").and_then(|a| a.as_array()).ok_or("no args")?.iter().filter_map(|x| x.as_str().map(|s| s.to_string())).collect();
